@@ -1,9 +1,10 @@
 (* The tie between the GENERATED translation of the trusted-deserialization classifier of
    typedpy/serialization/serialization.py (Gen/TrustedSrc.v: what _is_mapper_simple, _is_optional_anyof,
-   _extract_non_nonefield_from_optional, _structure_simplicity_level, _get_enum_mapping, the tuple
-   _valid_classes_for_trusted_deserialization and the class statements of the package say NOW) and the
-   hand-written classifier of Ser/Trusted.v on which the C10 theorems are proved (mapper_simple, level_of /
-   eligible, enum_targets, the "fields[0]" of remap_field).
+   _extract_non_nonefield_from_optional, _leading_option, _structure_simplicity_level, _enum_lookup,
+   _get_enum_mapping, the tuple _valid_classes_for_trusted_deserialization and the class statements of the
+   package say NOW) and the hand-written classifier of Ser/Trusted.v on which the C10 theorems are proved
+   (mapper_simple, level_of / eligible, enum_targets with the by-name / by-value lookup, the non-None option of
+   remap_field).
 
    Every theorem is about EVERY class environment, class, fuel.  How a model-level class description is seen
    as the Python-level argument `cls` is fixed in the first part of this file ([class_heap], [tf_py]):
@@ -57,10 +58,15 @@ Definition leaf_cls (l : leaf) : pystr :=
   | LSer id isn => ser_cls id isn
   end.
 
+(* Enum.__init__ with serialization_by_value: _enum_by_value = {e.value: e for e in self._enum_class} *)
+Definition enum_byv_py (cls : pystr) (ms : list (pystr * pyval)) : pyval :=
+  PDict (map (fun m => (snd m, PEnum cls (fst m) (snd m))) ms).
+
 Definition leaf_attrs (l : leaf) : list (pystr * pyval) :=
   match l with
   | LEnum cls ms byv => [(s2p "_is_enum", PBool true); (s2p "_enum_class", enum_cls_py cls ms);
-                         (s2p "serialization_by_value", PBool byv)]
+                         (s2p "serialization_by_value", PBool byv)] ++
+                        (if byv then [(s2p "_enum_by_value", enum_byv_py cls ms)] else [])
   | LEnumLit vals => [(s2p "_is_enum", PBool false); (s2p "values", PList vals)]
   | _ => []
   end.
@@ -309,6 +315,12 @@ Lemma anyof_is_optional h fs opt :
   fld_getattr h (anyof_py fs opt) (s2p "_is_optional") = if opt then Ok (PBool true) else Raise AttributeError.
 Proof. destruct opt; reflexivity. Qed.
 
+Lemma anyof_is_optional_def h fs opt :
+  fld_getattr_def h (anyof_py fs opt) (s2p "_is_optional") (PBool false) = Ok (PBool opt).
+Proof. destruct opt; reflexivity. Qed.
+Lemma anyof_isinst fs opt : fld_isinstance tbl (anyof_py fs opt) [s2p "AnyOf"] = Ok true.
+Proof. unfold anyof_py. rewrite isinst_struct. eval_cls. reflexivity. Qed.
+
 Lemma classes_of_insts : forall fs,
     forallb is_inst fs = true ->
     filterM (fun x => t <- fld_class_of x ;; Ok (Some t)) fs = Ok (map (fun v => ref (cls_of v)) fs).
@@ -338,13 +350,14 @@ Qed.
 
 Lemma extract_anyof_py (h : heap) a b opt :
   is_inst b = true ->
-  src_extract_non_nonefield_from_optional h (anyof_py [a; b] opt) = Ok a.
+  src_extract_non_nonefield_from_optional h (anyof_py [a; b] opt) =
+  Ok (if pystr_eqb (cls_of b) (s2p "NoneField") then a else b).
 Proof.
   intro Hb. destruct b; try discriminate Hb.
   unfold src_extract_non_nonefield_from_optional. rewrite anyof_get_fields. cbn [bind].
   change (py_subscript (PList [a; PStruct cls attrs]) (zint 1)) with (@Ok pyval (PStruct cls attrs)).
   change (py_subscript (PList [a; PStruct cls attrs]) (zint 0)) with (@Ok pyval a).
-  cbn [bind fld_class_of]. unfold py_is_class, ref. rewrite pystr_eqb_refl. cbn [andb bind].
+  cbn [bind fld_class_of cls_of]. unfold py_is_class, ref. rewrite pystr_eqb_refl. cbn [andb bind].
   destruct (pystr_eqb cls (s2p "NoneField")); reflexivity.
 Qed.
 
@@ -508,13 +521,46 @@ Section Bridge.
     - induction ls as [|l t IH]; [reflexivity|]. exact IH.
   Qed.
 
-  (* _extract_non_nonefield_from_optional returns fields[0] in both branches: the model's remap_field *)
+  (* an embedded field whose class is NoneField is the NoneField leaf *)
+  Lemma cls_of_none tf :
+    tf_wf tf = true -> pystr_eqb (cls_of (tfpy tf)) (s2p "NoneField") = true -> tfpy tf = none_py.
+  Proof.
+    destruct tf as [l|i|i|c'|nf f|ls|id b]; cbn [tf_wf tf_py]; intros Hw Hc; try (vm_compute in Hc; discriminate Hc).
+    - unfold leaf_py in Hc |- *. cbn [cls_of] in Hc. rewrite pystr_eqb_sym, leaf_is_none in Hc.
+      destruct l as [f| | |]; try discriminate Hc. destruct f; try discriminate Hc. reflexivity.
+    - unfold other_ok in Hw. destruct (other_obj id b) as [| | | | | | | | | |c attrs|]; try discriminate Hw.
+      cbn [cls_of] in Hc. apply pystr_eqb_spec in Hc. subst c.
+      apply andb_true_iff in Hw as [Hw _]. apply andb_true_iff in Hw as [Hw _]. apply andb_true_iff in Hw as [Hw _].
+      apply andb_true_iff in Hw as [_ H2]. vm_compute in H2. discriminate H2.
+  Qed.
+
+  (* _extract_non_nonefield_from_optional returns the option that is not None, wherever None is listed:
+     the model's remap_field *)
   Theorem src_extract_opt : forall (h : heap) nf f,
       tf_wf f = true ->
-      src_extract_non_nonefield_from_optional h (tfpy (TOpt nf f)) = Ok (tfpy (if nf then none_leaf else f)).
+      src_extract_non_nonefield_from_optional h (tfpy (TOpt nf f)) = Ok (tfpy f).
   Proof.
     intros h nf f Hf. pose proof (wf_is_inst f Hf) as Hi. cbn [tf_py].
-    destruct nf; rewrite extract_anyof_py; try reflexivity. exact Hi.
+    destruct nf; rewrite extract_anyof_py; try reflexivity; try exact Hi.
+    destruct (pystr_eqb (cls_of (tfpy f)) (s2p "NoneField")) eqn:E; [|reflexivity].
+    rewrite (cls_of_none f Hf E). reflexivity.
+  Qed.
+
+  (* _leading_option: the non-None option of the two-option AnyOf with None, the first option of any other AnyOf *)
+  Theorem src_leading_option_opt : forall (h : heap) nf f,
+      tf_wf f = true ->
+      src_leading_option h (tfpy (TOpt nf f)) = Ok (tfpy f).
+  Proof.
+    intros h nf f Hf. unfold src_leading_option. rewrite (src_optional_anyof_opt h nf f Hf).
+    cbn [bind py_truthy]. rewrite (src_extract_opt h nf f Hf). reflexivity.
+  Qed.
+
+  Theorem src_leading_option_union : forall (h : heap) l ls,
+      union_optional (l :: ls) = false ->
+      src_leading_option h (tfpy (TUnion (l :: ls))) = Ok (leaf_py l).
+  Proof.
+    intros h l ls Hu. unfold src_leading_option. rewrite (src_optional_anyof_union h (l :: ls)), Hu.
+    cbn [bind py_truthy tf_py map]. rewrite anyof_get_fields. cbn [bind]. rewrite subscript_0. reflexivity.
   Qed.
 
   (* ---------------------------------------------------------------- _structure_simplicity_level: the loop over the fields *)
@@ -791,74 +837,45 @@ Section Bridge.
 
   (* ---------------------------------------------------------------- _get_enum_mapping *)
 
-  Definition target := (pystr * (pystr * list (pystr * pyval)))%type.
-  Definition target_kv (t : target) : pystr * pyval := (fst t, enum_cls_py (fst (snd t)) (snd (snd t))).
-  Definition targets_res (r : res (list target)) : res pyval :=
-    match r with Ok ts => Ok (PDict (kv_py (map target_kv ts))) | Raise x => Raise x end.
+  Definition target := (pystr * etarget)%type.
+  (* _enum_lookup: the object the document value is looked up in *)
+  Definition lookup_py (t : etarget) : pyval :=
+    let '(cls, ms, byv) := t in if byv then enum_byv_py cls ms else enum_cls_py cls ms.
+  Definition target_kv (t : target) : pystr * pyval := (fst t, lookup_py (snd t)).
+  Definition targets_val (ts : list target) : pyval := PDict (kv_py (map target_kv ts)).
 
   (* the source builds the mapping of the plain Enum fields first, then the one of the Optional[Enum] fields,
-     and merges them: the resulting dict lists the plain Enum fields FIRST *)
-  Definition is_plain_enum (tf : tfield) : bool := match tf with TLeaf (LEnum _ _ _) => true | _ => false end.
+     and merges them: the resulting dict lists the plain Enum fields FIRST (Ser/Trusted.v enum_order) *)
   Definition plain_fd (fd : tfd) : bool := is_plain_enum (f_ty fd).
-  Definition enum_order (fs : list tfd) : list tfd :=
-    filter plain_fd fs ++ filter (fun fd => negb (plain_fd fd)) fs.
 
   Definition items_py (fs : list tfd) : list (pyval * pyval) :=
     map (fun fd => (PStr (f_name fd), tfpy (f_ty fd))) fs.
 
-  Definition tgt_py (k : pystr) (o : option (pystr * list (pystr * pyval))) : option (pyval * pyval) :=
-    match o with Some (cls, ms) => Some (PStr k, enum_cls_py cls ms) | None => None end.
+  Definition tgt_py (k : pystr) (o : option etarget) : option (pyval * pyval) :=
+    match o with Some t => Some (PStr k, lookup_py t) | None => None end.
 
-  Lemma enum_targets_app : forall a b,
-      enum_targets (a ++ b) = (x <- enum_targets a ;; y <- enum_targets b ;; Ok (x ++ y)).
-  Proof.
-    induction a as [|fd t IH]; intro b; cbn [app enum_targets bind].
-    - destruct (enum_targets b); reflexivity.
-    - destruct (enum_target (f_ty fd)) as [o|x]; cbn [bind]; [|reflexivity].
-      rewrite IH. destruct (enum_targets t) as [r|x]; cbn [bind]; [|reflexivity].
-      destruct (enum_targets b) as [r'|x]; cbn [bind]; [|reflexivity]. destruct o; reflexivity.
-  Qed.
+  Lemma enum_targets_app : forall a b, enum_targets (a ++ b) = enum_targets a ++ enum_targets b.
+  Proof. intros a b. unfold enum_targets. apply flat_map_app. Qed.
 
-  Lemma filterM_plain (F : pyval * pyval -> res (option (pyval * pyval))) :
-    (forall k tf, tf_wf tf = true ->
-                  F (PStr k, tfpy tf) = Ok (if is_plain_enum tf then match enum_target tf with Ok o => tgt_py k o | Raise _ => None end
-                                            else None)) ->
-    forall fs, fields_wf fs = true ->
-    exists A, enum_targets (filter plain_fd fs) = Ok A /\ filterM F (items_py fs) = Ok (kv_py (map target_kv A)).
+  Lemma filterM_targets (F : pyval * pyval -> res (option (pyval * pyval))) (sel : tfield -> bool) :
+    (forall k tf, tf_wf tf = true -> tf_union_ok tf = true ->
+                  F (PStr k, tfpy tf) = Ok (if sel tf then tgt_py k (enum_target tf) else None)) ->
+    forall fs, fields_wf fs = true -> fields_union_ok fs = true ->
+    filterM F (items_py fs) = Ok (kv_py (map target_kv (enum_targets (filter (fun fd => sel (f_ty fd)) fs)))).
   Proof.
-    intros HF. induction fs as [|fd t IH]; intro Hw; [exists []; split; reflexivity|].
-    cbn [fields_wf forallb] in Hw. apply andb_true_iff in Hw as [Hw Hwt]. destruct (IH Hwt) as [A [HA HB]].
-    cbn [items_py map filterM filter]. fold (items_py t). rewrite (HF _ _ Hw), HB. cbn [bind].
-    unfold plain_fd at 1. destruct (f_ty fd) as [[f|cls ms byv|vals|id isn]|i|i|c'|nf f|ls|id b] eqn:Hty; cbn [is_plain_enum];
-      try (exists A; split; [exact HA | reflexivity]).
-    exists ((f_name fd, (cls, ms)) :: A). cbn [enum_targets]. rewrite Hty. cbn [enum_target bind]. rewrite HA. split; reflexivity.
-  Qed.
-
-  Lemma filterM_optional (F : pyval * pyval -> res (option (pyval * pyval))) :
-    (forall k tf, tf_wf tf = true ->
-                  F (PStr k, tfpy tf) = if is_plain_enum tf then Ok None
-                                        else match enum_target tf with Ok o => Ok (tgt_py k o) | Raise x => Raise x end) ->
-    forall fs, fields_wf fs = true ->
-    filterM F (items_py fs) =
-    match enum_targets (filter (fun fd => negb (plain_fd fd)) fs) with
-    | Ok B => Ok (kv_py (map target_kv B))
-    | Raise x => Raise x
-    end.
-  Proof.
-    intros HF. induction fs as [|fd t IH]; intro Hw; [reflexivity|].
+    intros HF. induction fs as [|fd t IH]; intros Hw Hu; [reflexivity|].
     cbn [fields_wf forallb] in Hw. apply andb_true_iff in Hw as [Hw Hwt].
-    cbn [items_py map filterM filter]. fold (items_py t). rewrite (HF _ _ Hw), (IH Hwt).
-    unfold plain_fd. destruct (is_plain_enum (f_ty fd)); cbn [negb bind].
-    - destruct (enum_targets (filter (fun fd0 => negb (is_plain_enum (f_ty fd0))) t)); reflexivity.
-    - cbn [enum_targets]. destruct (enum_target (f_ty fd)) as [o|x]; cbn [bind]; [|reflexivity].
-      destruct (enum_targets (filter (fun fd0 => negb (is_plain_enum (f_ty fd0))) t)) as [B|x]; cbn [bind]; [|reflexivity].
-      destruct o as [[cls ms]|]; reflexivity.
+    cbn [fields_union_ok forallb] in Hu. apply andb_true_iff in Hu as [Hu Hut].
+    cbn [items_py map filterM filter]. fold (items_py t). rewrite (HF _ _ Hw Hu), (IH Hwt Hut). cbn [bind].
+    destruct (sel (f_ty fd)); [|reflexivity].
+    unfold enum_targets. cbn [flat_map].
+    destruct (enum_target (f_ty fd)) as [x|]; reflexivity.
   Qed.
 
   Lemma enum_order_perm fs : Permutation (enum_order fs) fs.
   Proof.
     unfold enum_order. induction fs as [|fd t IH]; [constructor|].
-    cbn [filter]. destruct (plain_fd fd); cbn [negb app].
+    cbn [filter]. destruct (is_plain_enum (f_ty fd)); cbn [negb app].
     - constructor. exact IH.
     - apply Permutation_sym, Permutation_cons_app, Permutation_sym. exact IH.
   Qed.
@@ -868,23 +885,71 @@ Section Bridge.
     rewrite !nodupb_NoDup. apply Permutation_NoDup, Permutation_map, Permutation_sym, enum_order_perm.
   Qed.
 
-  Lemma targets_keys : forall l ts,
-      enum_targets l = Ok ts -> nodupb (map f_name l) = true ->
-      nodupb (map fst ts) = true /\ (forall k, str_in k (map f_name l) = false -> str_in k (map fst ts) = false).
+  Lemma targets_keys : forall l,
+      nodupb (map f_name l) = true ->
+      nodupb (map fst (enum_targets l)) = true /\
+      (forall k, str_in k (map f_name l) = false -> str_in k (map fst (enum_targets l)) = false).
   Proof.
-    induction l as [|fd t IH]; intros ts H Hn.
-    - inversion H; subst. split; [reflexivity|intros; reflexivity].
-    - cbn [enum_targets] in H. destruct (enum_target (f_ty fd)) as [o|x]; [|discriminate H]. cbn [bind] in H.
-      destruct (enum_targets t) as [r|x]; [|discriminate H]. cbn [bind] in H. inversion H; subst. clear H.
-      cbn [map nodupb] in Hn. apply andb_true_iff in Hn as [H1 H2]. apply negb_true_iff in H1.
-      destruct (IH r eq_refl H2) as [Hr Hk].
-      assert (Hsub : forall k, str_in k (map f_name (fd :: t)) = false -> str_in k (map fst r) = false).
+    unfold enum_targets. induction l as [|fd t IH]; intro Hn.
+    - split; [reflexivity|intros; reflexivity].
+    - cbn [map nodupb] in Hn. apply andb_true_iff in Hn as [H1 H2]. apply negb_true_iff in H1.
+      destruct (IH H2) as [Hr Hk]. cbn [flat_map].
+      assert (Hsub : forall k, str_in k (map f_name (fd :: t)) = false ->
+                               str_in k (map fst (flat_map (fun fd0 => match enum_target (f_ty fd0) with
+                                                                       | Some x => [(f_name fd0, x)] | None => [] end) t)) = false).
       { intros k Hkk. apply Hk. unfold str_in in Hkk |- *. cbn [map existsb] in Hkk. apply orb_false_iff in Hkk as [_ Hkk]. exact Hkk. }
-      destruct o as [x|]; [|split; assumption].
+      destruct (enum_target (f_ty fd)) as [x|]; cbn [app]; [|split; assumption].
       split.
       + cbn [map fst nodupb]. rewrite (Hk _ H1), Hr. reflexivity.
       + intros k Hkk. unfold str_in in Hkk |- *. cbn [map existsb fst] in Hkk |- *.
         apply orb_false_iff in Hkk as [Hk1 Hk2]. rewrite Hk1. cbn [orb]. apply Hk. exact Hk2.
+  Qed.
+
+  (* the test `isinstance(x, Enum) and getattr(x, "_is_enum", False)` on an embedded field *)
+  Lemma enum_test (h : heap) tf :
+    tf_wf tf = true ->
+    py_and (fld_isinstance tbl (tfpy tf) [s2p "Enum"])
+           (fun _ => t <- fld_getattr_def h (tfpy tf) (s2p "_is_enum") (PBool false) ;; Ok (py_truthy t)) =
+    Ok (is_plain_enum tf).
+  Proof.
+    intro Ht. destruct tf as [l|i|i|c'|nf f|ls|id b]; cbn [tf_py is_plain_enum].
+    - cbn [tf_wf] in Ht. destruct (leaf_facts l Ht) as (Hk & _). pose proof (leaf_is_enum l Ht) as He.
+      unfold leaf_py. rewrite isinst_struct, Hk, He.
+      destruct l as [f|cls ms byv|vals|id isn]; reflexivity.
+    - rewrite isinst_struct. eval_cls. reflexivity.
+    - rewrite isinst_struct. eval_cls. reflexivity.
+    - rewrite isinst_struct. eval_cls. reflexivity.
+    - unfold anyof_py. rewrite isinst_struct. eval_cls. reflexivity.
+    - unfold anyof_py. rewrite isinst_struct. eval_cls. reflexivity.
+    - cbn [tf_wf] in Ht. unfold other_ok in Ht.
+      destruct (other_obj id b) as [| | | | | | | | | |c0 attrs|]; try discriminate Ht.
+      apply andb_true_iff in Ht as [Ht _]. apply andb_true_iff in Ht as [Ht _]. apply andb_true_iff in Ht as [Ht _].
+      apply andb_true_iff in Ht as [H1 H2]. apply negb_true_iff in H2.
+      rewrite isinst_struct, H1.
+      assert (HE : class_in tbl c0 [s2p "Enum"] = false).
+      { destruct (class_in tbl c0 [s2p "Enum"]) eqn:E; [|reflexivity].
+        rewrite (class_in_mem c0 (s2p "Enum") valid eq_refl E) in H2. discriminate H2. }
+      rewrite HE. reflexivity.
+  Qed.
+
+  (* _enum_lookup of an Enum over an enum class: its members by name, or by value *)
+  Lemma enum_lookup_py (h : heap) cls ms byv :
+    src_enum_lookup h (leaf_py (LEnum cls ms byv)) = Ok (lookup_py (cls, ms, byv)).
+  Proof. destruct byv; reflexivity. Qed.
+
+  Lemma plain_target tf : is_plain_enum tf = true -> exists cls ms byv, tf = TLeaf (LEnum cls ms byv).
+  Proof.
+    destruct tf as [[f|cls ms byv|vals|id isn]|i|i|c'|nf f|ls|id b]; cbn [is_plain_enum]; try discriminate.
+    intros _. exists cls, ms, byv. reflexivity.
+  Qed.
+
+  (* what follows the test: the entry of the mapping *)
+  Lemma entry_after_test (h : heap) k tf :
+    (if is_plain_enum tf then t <- src_enum_lookup h (tfpy tf) ;; Ok (Some (PStr k, t)) else Ok None) =
+    Ok (if is_plain_enum tf then tgt_py k (enum_target tf) else None).
+  Proof.
+    destruct (is_plain_enum tf) eqn:E; [|reflexivity].
+    destruct (plain_target tf E) as (cls & ms & byv & ->). cbn [tf_py]. rewrite enum_lookup_py. reflexivity.
   Qed.
 
   (* _get_enum_mapping: the dict the source builds is the model's enum_targets, taken in the order
@@ -892,44 +957,27 @@ Section Bridge.
   Theorem src_enum_mapping_eq : forall cn c,
       find_tclass e cn = Some c ->
       fields_wf (t_fields c) = true ->
+      fields_union_ok (t_fields c) = true ->
       nodupb (map f_name (t_fields c)) = true ->
-      src_get_enum_mapping heap_e (ref cn) = targets_res (enum_targets (enum_order (t_fields c))).
+      src_get_enum_mapping heap_e (ref cn) = Ok (targets_val (enum_targets (enum_order (t_fields c)))).
   Proof.
-    intros cn c Hf Hw Hn. destruct (heap_fields cn c Hf) as (Hg & _ & _).
+    intros cn c Hf Hw Hu Hn. destruct (heap_fields cn c Hf) as (Hg & _ & _).
     unfold src_get_enum_mapping. rewrite ref_getattr, Hg. cbn [bind]. unfold fields_py. cbn [py_dict_items bind].
     fold (items_py (t_fields c)).
     match goal with |- context [filterM ?F (items_py (t_fields c))] => set (F1 := F) end.
-    assert (HF1 : forall k tf, tf_wf tf = true ->
-                  F1 (PStr k, tfpy tf) = Ok (if is_plain_enum tf then match enum_target tf with Ok o => tgt_py k o | Raise _ => None end
-                                             else None)).
-    { intros k tf Ht. subst F1. cbv beta iota.
-      destruct tf as [l|i|i|c'|nf f|ls|id b]; cbn [tf_py is_plain_enum].
-      - cbn [tf_wf] in Ht. destruct (leaf_facts l Ht) as (Hk & _). pose proof (leaf_is_enum l Ht) as He.
-        unfold leaf_py. rewrite isinst_struct, Hk, He.
-        destruct l as [f|cls ms byv|vals|id isn]; reflexivity.
-      - rewrite isinst_struct. eval_cls. reflexivity.
-      - rewrite isinst_struct. eval_cls. reflexivity.
-      - rewrite isinst_struct. eval_cls. reflexivity.
-      - unfold anyof_py. rewrite isinst_struct. eval_cls. reflexivity.
-      - unfold anyof_py. rewrite isinst_struct. eval_cls. reflexivity.
-      - cbn [tf_wf] in Ht. unfold other_ok in Ht.
-        destruct (other_obj id b) as [| | | | | | | | | |c0 attrs|]; try discriminate Ht.
-        apply andb_true_iff in Ht as [Ht _]. apply andb_true_iff in Ht as [Ht _]. apply andb_true_iff in Ht as [Ht _].
-        apply andb_true_iff in Ht as [H1 H2]. apply negb_true_iff in H2.
-        rewrite isinst_struct, H1.
-        assert (HE : class_in tbl c0 [s2p "Enum"] = false).
-        { destruct (class_in tbl c0 [s2p "Enum"]) eqn:E; [|reflexivity].
-          rewrite (class_in_mem c0 (s2p "Enum") valid eq_refl E) in H2. discriminate H2. }
-        rewrite HE. reflexivity. }
-    destruct (filterM_plain F1 HF1 (t_fields c) Hw) as [A [HA HFA]]. rewrite HFA. cbn [bind].
+    assert (HF1 : forall k tf, tf_wf tf = true -> tf_union_ok tf = true ->
+                  F1 (PStr k, tfpy tf) = Ok (if is_plain_enum tf then tgt_py k (enum_target tf) else None)).
+    { intros k tf Ht _. subst F1. cbv beta iota. rewrite (enum_test heap_e tf Ht). cbn [bind].
+      apply entry_after_test. }
+    rewrite (filterM_targets F1 is_plain_enum HF1 (t_fields c) Hw Hu). cbn [bind].
     pose proof (enum_order_nodup _ Hn) as Hn'. unfold enum_order in Hn' |- *.
-    rewrite enum_targets_app, HA. cbn [bind].
+    rewrite enum_targets_app.
+    set (A := enum_targets (filter (fun fd => is_plain_enum (f_ty fd)) (t_fields c))).
     match goal with |- context [filterM ?F (items_py (t_fields c))] => set (F2 := F) end.
-    assert (HF2 : forall k tf, tf_wf tf = true ->
-                  F2 (PStr k, tfpy tf) = if is_plain_enum tf then Ok None
-                                         else match enum_target tf with Ok o => Ok (tgt_py k o) | Raise x => Raise x end).
-    { intros k tf Ht. subst F2. cbv beta iota.
-      destruct tf as [l|i|i|c'|nf f|ls|id b]; cbn [tf_py is_plain_enum].
+    assert (HF2 : forall k tf, tf_wf tf = true -> tf_union_ok tf = true ->
+                  F2 (PStr k, tfpy tf) = Ok (if negb (is_plain_enum tf) then tgt_py k (enum_target tf) else None)).
+    { intros k tf Ht Hut. subst F2. cbv beta iota.
+      destruct tf as [l|i|i|c'|nf f|ls|id b]; cbn [tf_py].
       - cbn [tf_wf] in Ht. destruct (leaf_facts l Ht) as (Hk & _ & _ & Ha & _).
         unfold leaf_py. rewrite isinst_struct, Hk, Ha.
         destruct l as [f|cls ms byv|vals|id isn]; reflexivity.
@@ -937,100 +985,52 @@ Section Bridge.
       - rewrite isinst_struct. eval_cls. reflexivity.
       - rewrite isinst_struct. eval_cls. reflexivity.
       - (* TOpt *)
-        rewrite !anyof_fields, !anyof_is_optional. unfold anyof_py at 1. rewrite isinst_struct. eval_cls.
-        cbn [py_and bind py_truthy]. cbn [tf_wf] in Ht.
-        destruct nf; rewrite !subscript_0; cbn [bind].
-        + unfold none_py, leaf_py. rewrite isinst_struct. cbn [leaf_cls prim_cls]. eval_cls. reflexivity.
-        + destruct f as [l|i|i|c'|nf f|ls|id b]; cbn [tf_py].
-          * cbn [tf_wf] in Ht. destruct (leaf_facts l Ht) as (Hk & _). pose proof (leaf_is_enum l Ht) as He.
-            unfold leaf_py. rewrite isinst_struct, Hk, He.
-            destruct l as [f|cls ms byv|vals|id isn]; reflexivity.
-          * rewrite isinst_struct. eval_cls. reflexivity.
-          * rewrite isinst_struct. eval_cls. reflexivity.
-          * rewrite isinst_struct. eval_cls. reflexivity.
-          * unfold anyof_py. rewrite isinst_struct. eval_cls. reflexivity.
-          * unfold anyof_py. rewrite isinst_struct. eval_cls. reflexivity.
-          * cbn [tf_wf] in Ht. unfold other_ok in Ht.
-            destruct (other_obj id b) as [| | | | | | | | | |c0 attrs|]; try discriminate Ht.
-            apply andb_true_iff in Ht as [Ht _]. apply andb_true_iff in Ht as [Ht _]. apply andb_true_iff in Ht as [Ht _].
-            apply andb_true_iff in Ht as [H1 H2]. apply negb_true_iff in H2.
-            rewrite isinst_struct, H1.
-            assert (HE : class_in tbl c0 [s2p "Enum"] = false).
-            { destruct (class_in tbl c0 [s2p "Enum"]) eqn:E; [|reflexivity].
-              rewrite (class_in_mem c0 (s2p "Enum") valid eq_refl E) in H2. discriminate H2. }
-            rewrite HE. reflexivity.
+        cbn [tf_wf] in Ht.
+        change (anyof_py (if nf then [none_py; tfpy f] else [tfpy f; none_py]) true) with (tfpy (TOpt nf f)).
+        rewrite !(src_leading_option_opt heap_e nf f Ht).
+        cbn [tf_py]. rewrite anyof_isinst, anyof_is_optional_def.
+        cbn [py_and bind py_truthy]. rewrite (enum_test heap_e f Ht). cbn [bind].
+        rewrite entry_after_test. cbn [is_plain_enum negb].
+        destruct f as [[f0|cls ms byv|vals|id isn]|i|i|c'|nf' f'|ls|id b]; reflexivity.
       - (* TUnion *)
-        rewrite !anyof_fields, !anyof_is_optional. unfold anyof_py at 1. rewrite isinst_struct. eval_cls.
-        cbn [py_and bind enum_target]. cbn [tf_wf] in Ht.
-        destruct (existsb is_none_leaf ls) eqn:Hex; cbn [bind py_truthy]; [|reflexivity].
-        destruct ls as [|l ls']; [discriminate Hex|]. cbn [map]. rewrite !subscript_0. cbn [bind].
-        cbn [forallb] in Ht. apply andb_true_iff in Ht as [Hl _].
-        destruct (leaf_facts l Hl) as (Hk & _). pose proof (leaf_is_enum l Hl) as He.
-        unfold leaf_py. rewrite isinst_struct, Hk, He.
-        destruct l as [f|cls ms byv|vals|id isn]; reflexivity.
+        cbn [tf_wf] in Ht. cbn [tf_union_ok] in Hut. apply negb_true_iff in Hut.
+        destruct ls as [|l ls'].
+        + cbn [map existsb]. rewrite anyof_isinst, anyof_is_optional_def. reflexivity.
+        + change (anyof_py (map leaf_py (l :: ls')) (existsb is_none_leaf (l :: ls'))) with (tfpy (TUnion (l :: ls'))).
+          rewrite !(src_leading_option_union heap_e l ls' Hut).
+          cbn [tf_py]. rewrite anyof_isinst, anyof_is_optional_def.
+          cbn [py_and bind py_truthy is_plain_enum negb enum_target].
+          destruct (existsb is_none_leaf (l :: ls')) eqn:Hex; [|reflexivity].
+          cbn [forallb] in Ht. apply andb_true_iff in Ht as [Hl _].
+          change (leaf_py l) with (tfpy (TLeaf l)).
+          rewrite (enum_test heap_e (TLeaf l) Hl). cbn [bind].
+          rewrite entry_after_test. cbn [is_plain_enum enum_target].
+          destruct l as [f0|cls ms byv|vals|id isn]; reflexivity.
       - cbn [tf_wf] in Ht. unfold other_ok in Ht.
         destruct (other_obj id b) as [| | | | | | | | | |c0 attrs|]; try discriminate Ht.
         apply andb_true_iff in Ht as [Ht _]. apply andb_true_iff in Ht as [Ht _]. apply andb_true_iff in Ht as [Ht H3].
         apply andb_true_iff in Ht as [H1 H2]. apply negb_true_iff in H3.
         rewrite isinst_struct, H1, H3. reflexivity. }
-    rewrite (filterM_optional F2 HF2 (t_fields c) Hw).
+    rewrite (filterM_targets F2 (fun tf => negb (is_plain_enum tf)) HF2 (t_fields c) Hw Hu).
+    set (B := enum_targets (filter (fun fd => negb (is_plain_enum (f_ty fd))) (t_fields c))).
     rewrite map_app, nodupb_app in Hn'. apply andb_true_iff in Hn' as [Hn1 Hn3]. apply andb_true_iff in Hn1 as [Hn1 Hn2].
-    destruct (targets_keys _ _ HA Hn1) as [HAn _].
+    destruct (targets_keys _ Hn1) as [HAn _]. fold A in HAn.
     rewrite (dict_of_nodup (map target_kv A)) by (rewrite map_map; exact HAn). cbn [bind].
-    destruct (enum_targets (filter (fun fd => negb (plain_fd fd)) (t_fields c))) as [B|x] eqn:HB; cbn [bind targets_res]; [|reflexivity].
-    destruct (targets_keys _ _ HB Hn2) as [HBn _].
+    destruct (targets_keys _ Hn2) as [HBn _]. fold B in HBn.
     rewrite (dict_of_nodup (map target_kv B)) by (rewrite map_map; exact HBn). cbn [bind].
     rewrite dict_merge_nodup.
-    - rewrite map_app. reflexivity.
+    - unfold targets_val. rewrite map_app. reflexivity.
     - rewrite <- map_app, map_map. change (map (fun x => fst (target_kv x)) (A ++ B)) with (map fst (A ++ B)).
       pose proof (enum_order_nodup _ Hn) as Hn''.
-      assert (HAB : enum_targets (enum_order (t_fields c)) = Ok (A ++ B)).
-      { unfold enum_order. rewrite enum_targets_app, HA, HB. reflexivity. }
-      exact (proj1 (targets_keys _ _ HAB Hn'')).
+      pose proof (proj1 (targets_keys _ Hn'')) as HAB. unfold enum_order in HAB. rewrite enum_targets_app in HAB.
+      exact HAB.
   Qed.
 
-  (* the order is the ONLY difference with the model's enum_targets (t_fields c): same failure, same exception
-     class, and the same entries up to a permutation *)
-  Lemma enum_target_exn tf x : enum_target tf = Raise x -> x = AttributeError.
+  (* the order is the ONLY difference with the model's enum_targets (t_fields c): the same entries up to a
+     permutation (and no field can make the construction fail any more) *)
+  Theorem enum_order_same : forall fs, Permutation (enum_targets fs) (enum_targets (enum_order fs)).
   Proof.
-    destruct tf as [[f|cls ms byv|vals|id isn]|i|i|c'|nf f|ls|id b]; cbn [enum_target]; try discriminate.
-    - destruct nf; try discriminate. destruct f as [[f0|cls ms byv|vals|id isn]|i|i|c'|nf f|ls|id b]; try discriminate.
-      intro H. inversion H. reflexivity.
-    - destruct (existsb is_none_leaf ls); [|intro H; inversion H; reflexivity].
-      destruct ls as [|[f|cls ms byv|vals|id isn] t]; try discriminate. intro H. inversion H. reflexivity.
-  Qed.
-
-  Definition tgt_of (fd : tfd) : list target :=
-    match enum_target (f_ty fd) with Ok (Some x) => [(f_name fd, x)] | _ => [] end.
-  Definition tgt_ok (fd : tfd) : bool := is_ok (enum_target (f_ty fd)).
-
-  Lemma enum_targets_char : forall l,
-      enum_targets l = if forallb tgt_ok l then Ok (flat_map tgt_of l) else Raise AttributeError.
-  Proof.
-    induction l as [|fd t IH]; [reflexivity|].
-    cbn [enum_targets forallb flat_map]. unfold tgt_ok at 1, tgt_of at 1.
-    destruct (enum_target (f_ty fd)) as [o|x] eqn:E; cbn [bind is_ok andb].
-    - rewrite IH. destruct (forallb tgt_ok t); cbn [bind]; [|reflexivity]. destruct o; reflexivity.
-    - rewrite (enum_target_exn _ _ E). reflexivity.
-  Qed.
-
-  Theorem enum_order_same : forall fs,
-      match enum_targets fs, enum_targets (enum_order fs) with
-      | Ok a, Ok b => Permutation a b
-      | Raise x, Raise y => x = y
-      | _, _ => False
-      end.
-  Proof.
-    intro fs. rewrite !enum_targets_char. pose proof (enum_order_perm fs) as HP.
-    destruct (forallb tgt_ok fs) eqn:E1, (forallb tgt_ok (enum_order fs)) eqn:E2.
-    - apply Permutation_flat_map, Permutation_sym. exact HP.
-    - exfalso. rewrite forallb_forall in E1. assert (E3 : forallb tgt_ok (enum_order fs) = true).
-      { apply forallb_forall. intros x Hx. apply E1. exact (Permutation_in _ HP Hx). }
-      congruence.
-    - exfalso. rewrite forallb_forall in E2. assert (E3 : forallb tgt_ok fs = true).
-      { apply forallb_forall. intros x Hx. apply E2. exact (Permutation_in _ (Permutation_sym HP) Hx). }
-      congruence.
-    - reflexivity.
+    intro fs. unfold enum_targets. apply Permutation_flat_map, Permutation_sym, enum_order_perm.
   Qed.
 
   Theorem src_eligible_eq : forall fuel cn,
@@ -1049,11 +1049,12 @@ End Bridge.
    src_mapper_simple_eq      _is_mapper_simple(cls)              = mapper_simple (t_mapper c)
    src_optional_anyof_opt    _is_optional_anyof(Optional[f])     = True
    src_optional_anyof_union  _is_optional_anyof(AnyOf[leaves])   = union_optional ls   (two options, one of them None)
-   src_extract_opt           _extract_non_nonefield_from_optional(AnyOf pair) = fields[0]  (remap_field of the model)
+   src_extract_opt           _extract_non_nonefield_from_optional(AnyOf pair) = the option that is not None  (remap_field)
+   src_leading_option_opt / _union   _leading_option: that option for the pair, fields[0] for any other AnyOf
    src_level_eq              _structure_simplicity_level(cls)    = level_of e fuel cn   wherever the model predicts
    src_eligible_eq           its truth value                     = eligible e fuel cn
    src_enum_mapping_eq       _get_enum_mapping(cls)              = enum_targets, plain Enum fields FIRST (enum_order)
-   enum_order_same           enum_targets (enum_order fs) and enum_targets fs: same failure, permuted entries
+   enum_order_same           enum_targets (enum_order fs) and enum_targets fs: permuted entries
 
    Side conditions (booleans; satisfied by env_ex below): chain_ok (a list-valued mapper is a non-empty list),
    env_wf / fields_wf (LPrim is one of Number/Integer/Float/String/Boolean/NoneField; the object of an unmodelled
@@ -1099,7 +1100,8 @@ Definition env_ex : tenv :=
     mkc "Fun" [mkf "a" t_int] (MapDict [(s2p "a", MFun)]);
     mkc "C" [ mkf "i" t_int; mkf "d" (TLeaf (LSer 1 false)); mkf "r" (TRef (s2p "In"));
               mkf "o" (TOpt false (TLeaf t_color)); mkf "u" (TUnion [t_str; t_color; LPrim FNone]);
-              mkf "ar" (TArray (TRef (s2p "In"))); mkf "s" (TSet (TLeaf t_str)); mkf "e" (TLeaf t_color) ]
+              mkf "ar" (TArray (TRef (s2p "In"))); mkf "s" (TSet (TLeaf t_str)); mkf "e" (TLeaf t_color);
+              mkf "ov" (TOpt true (TLeaf (LEnum (s2p "Color") color_ms true))) ]
         (MapDict [(s2p "i", MStr (s2p "k0"))]);
     mkc "D" [mkf "x" (TArray (TRef (s2p "Bad")))] MapUpper;
     mkc "L" [mkf "a" t_int] MapList ].
@@ -1117,7 +1119,8 @@ Example C10_src_nonvacuous :
   map (fun cn => level_of env_ex 4 (s2p cn)) ["In"; "C"; "D"; "Fun"; "L"]%string =
   [Ok (Some NotNested); Ok (Some Nested); Ok None; Raise ValueError; Raise ValueError] /\
   src_get_enum_mapping (class_heap other_cat chain_ex env_ex) (ref (s2p "C")) =
-  Ok (PDict [(PStr (s2p "e"), enum_cls_py (s2p "Color") color_ms); (PStr (s2p "o"), enum_cls_py (s2p "Color") color_ms)]).
+  Ok (PDict [(PStr (s2p "e"), enum_cls_py (s2p "Color") color_ms); (PStr (s2p "o"), enum_cls_py (s2p "Color") color_ms);
+             (PStr (s2p "ov"), enum_byv_py (s2p "Color") color_ms)]).
 Proof. vm_compute. repeat split; reflexivity. Qed.
 
 (* ------------------------------------------------------------------ where source and hand model part *)
@@ -1133,10 +1136,10 @@ Definition doc_order : list (pystr * pyval) :=
   [(s2p "a", PDict [(PStr (s2p "x"), PNum (NInt 1))]); (s2p "b", PStr (s2p "NOPE"))].
 
 Example C10_src_enum_order_witness :
-  (ts <- enum_targets (t_fields (mkc "C" [mkf "a" (TOpt false (TLeaf t_color)); mkf "b" (TLeaf t_color)] MapNone)) ;;
-   apply_enums ts doc_order doc_order) = Raise TypeError /\
-  (ts <- enum_targets (enum_order (t_fields (mkc "C" [mkf "a" (TOpt false (TLeaf t_color)); mkf "b" (TLeaf t_color)] MapNone))) ;;
-   apply_enums ts doc_order doc_order) = Raise KeyError /\
+  apply_enums (enum_targets (t_fields (mkc "C" [mkf "a" (TOpt false (TLeaf t_color)); mkf "b" (TLeaf t_color)] MapNone)))
+              doc_order doc_order = Raise TypeError /\
+  apply_enums (enum_targets (enum_order (t_fields (mkc "C" [mkf "a" (TOpt false (TLeaf t_color)); mkf "b" (TLeaf t_color)] MapNone))))
+              doc_order doc_order = Raise KeyError /\
   trusted_cls (fun _ _ => true) (fun _ _ => Raise Unmodelled) env_order 3 Nested (s2p "C")
               (PDict (map (fun p => (PStr (fst p), snd p)) doc_order)) = Raise KeyError.
 Proof. vm_compute. repeat split; reflexivity. Qed.
@@ -1157,6 +1160,8 @@ Print Assumptions src_mapper_simple_eq.
 Print Assumptions src_optional_anyof_opt.
 Print Assumptions src_optional_anyof_union.
 Print Assumptions src_extract_opt.
+Print Assumptions src_leading_option_opt.
+Print Assumptions src_leading_option_union.
 Print Assumptions src_level_eq.
 Print Assumptions src_eligible_eq.
 Print Assumptions src_enum_mapping_eq.
